@@ -97,6 +97,8 @@ type Explorer struct {
 	TimeoutMs    int
 	Trace        bool
 	Tier         string
+	MaxSeconds   int
+	Progress     bool
 
 	mu       sync.Mutex
 	cond     *sync.Cond
@@ -187,6 +189,34 @@ func (ex *Explorer) Run() *HarnessResult {
 	}
 	ex.res.Stats.PathsByEnd = map[string]int{}
 	ex.queue = [][]uint8{{}}
+	if ex.MaxSeconds == 0 {
+		ex.MaxSeconds = 600
+	}
+	stopTimer := make(chan struct{})
+	go func() {
+		tick := time.NewTicker(10 * time.Second)
+		defer tick.Stop()
+		for {
+			select {
+			case <-stopTimer:
+				return
+			case <-tick.C:
+				ex.mu.Lock()
+				if ex.Progress {
+					fmt.Fprintf(os.Stderr, "  [%s] %.0fs paths=%d queue=%d active=%d\n", ex.Fn.Name(), time.Since(t0).Seconds(), ex.pathCount, len(ex.queue), ex.active)
+				}
+				if time.Since(t0) > time.Duration(ex.MaxSeconds)*time.Second && !ex.stopped {
+					ex.stopped = true
+					if len(ex.res.Inconclusive) < 20 {
+						ex.res.Inconclusive = append(ex.res.Inconclusive, Inconclusive{"UNWIND", fmt.Sprintf("time budget of %ds exhausted after %d paths (%d prefixes still queued)", ex.MaxSeconds, ex.pathCount, len(ex.queue)), nil})
+					}
+					ex.cond.Broadcast()
+				}
+				ex.mu.Unlock()
+			}
+		}
+	}()
+	defer close(stopTimer)
 	var wg sync.WaitGroup
 	workers := make([]*worker, ex.Jobs)
 	for k := 0; k < ex.Jobs; k++ {
